@@ -1188,8 +1188,13 @@ def r_disk_copy(ctx):
         run._r = i + 1
         return chunks[i] if i < len(chunks) else b""
     outcome = []
-    ip = Interp(repo, call_models={"multiprocessing.shared_memory.SharedMemory": seg, ("method", "read"): read}, max_while=8)
-    paths = ip.explore(fi, env={"self.root": Obj("T", {"name": "/spill"}, name="root")},
+    # entered through the public Disk.page_in / page_out (the thread pool's submit modelled as an immediate call), so that what the submitting side
+    # computes for the job — e.g. the spill path — is part of the picture
+    submit_now = lambda run, a, k, n, f: run.call_value(a[0], None, list(a[1:]), dict(k), n, f)
+    ent_in = repo.func(f"{DK}.page_in")
+    ip = Interp(repo, call_models={"multiprocessing.shared_memory.SharedMemory": seg, ("method", "read"): read, ("method", "submit"): submit_now},
+                inline={fi.qual}, max_while=8)
+    paths = ip.explore(ent_in, env={"self.root": Obj("T", {"name": "/spill"}, name="root")},
                        args={"shmid": "s1", "size": 6, "callback": ModelFn("cb", lambda run, a, k, n, f: outcome.append(a[0] if a else None))})
     ctx.evals(len(paths))
     for p in paths:
@@ -1224,8 +1229,9 @@ def r_disk_copy(ctx):
 
     def seg2(run, a, k, n, f):
         return Obj("multiprocessing.shared_memory.SharedMemory", {"buf": [1, 2, 3, 4, 5, 6], "_name": "n", "size": 6, "name": "n"}, name="SEG")
-    ip = Interp(repo, call_models={"multiprocessing.shared_memory.SharedMemory": seg2})
-    paths = ip.explore(fo, env={"self.root": Obj("T", {"name": "/spill"}, name="root")}, args={"shmid": "s1", "callback": ModelFn("cb", lambda run, a, k, n, f: None)})
+    ent_out = repo.func(f"{DK}.page_out")
+    ip = Interp(repo, call_models={"multiprocessing.shared_memory.SharedMemory": seg2, ("method", "submit"): submit_now}, inline={fo.qual})
+    paths = ip.explore(ent_out, env={"self.root": Obj("T", {"name": "/spill"}, name="root")}, args={"shmid": "s1", "callback": ModelFn("cb", lambda run, a, k, n, f: None)})
     ctx.evals(len(paths))
     for p in paths:
         wr = [e for e in p.effects if e.kind == "call" and e.data.get("method") == "write"]
@@ -1254,8 +1260,9 @@ def r_disk_copy(ctx):
                 else:
                     ctx.ok(rid, loc(fo, e.node), "page-out: the written term is the segment's whole buffer")
     # both sides name the spill file the same way
-    pin = [e for p in Interp(repo, call_models={"multiprocessing.shared_memory.SharedMemory": seg, ("method", "read"): lambda run, a, k, n, f: b""}).explore(
-        fi, env={"self.root": Obj("T", {"name": "/spill"}, name="root")}, args={"shmid": "s1", "size": 6, "callback": ModelFn("cb", lambda *a: None)})
+    pin = [e for p in Interp(repo, call_models={"multiprocessing.shared_memory.SharedMemory": seg, ("method", "read"): lambda run, a, k, n, f: b"", ("method", "submit"): submit_now},
+                             inline={fi.qual}).explore(
+        ent_in, env={"self.root": Obj("T", {"name": "/spill"}, name="root")}, args={"shmid": "s1", "size": 6, "callback": ModelFn("cb", lambda *a: None)})
         for e in p.effects if e.kind == "call" and e.data.get("name") == "builtins.open"]
     if pin and vkey(pin[0].data["args"][0]) != "'/spill/s1'":
         ctx.violation(rid, fi.qual, loc(fi), "page-in reads the file page-out wrote", f"page-in opens {vkey(pin[0].data['args'][0])}, page-out writes '/spill/s1'")
